@@ -5,6 +5,7 @@ import (
 	"fmt"
 
 	"github.com/vipnode/vipnode/v2/internal/verifapi"
+	"github.com/vipnode/vipnode/v2/internal/verifmodels/faultstore"
 	"github.com/vipnode/vipnode/v2/internal/verifmodels/sigs"
 	"github.com/vipnode/vipnode/v2/pool/store"
 )
@@ -13,11 +14,18 @@ import (
 // connection closes and a final peer request, from the empty registry.
 func VerifC09History() {
 	db := newVerifStore()
-	p := New(db, nil)
+	// with faults=1 the store may fail to record a registration (a storage fault at SetNode)
+	fs := faultstore.New(db)
+	p := New(fs, nil)
+	faults := verifapi.Param("faults", 0) == 1
 	now := verifapi.Time("now")
 	verifapi.SetNow(now)
 	nh := verifapi.Param("hosts", 2)
 	nc := verifapi.Param("conns", 3)
+	// a registration that failed on ANOTHER connection than the host's current one leaves open which
+	// of the two counts as "most recently registered": nothing is claimed about that host until its next
+	// successful registration. A failed re-announce on the SAME connection changes nothing.
+	unsure := make([]bool, nh)
 	conns := make([]*VerifHost, nc)
 	live := make([]bool, nc)
 	opened := make([]bool, nc)
@@ -38,12 +46,26 @@ func VerifC09History() {
 			if !live[c] {
 				verifapi.Assume(false) // a closed socket cannot carry requests
 			}
-			if _, err := VerifConnect(p, conns[c], verifapi.NodeID(1+h), true, ""); err != nil {
-				verifapi.Unreachable("c09.host-connect-error")
-				return
+			fs.Arm(-1, "")
+			if faults && verifapi.Bool(fmt.Sprint("storagefault", e)) {
+				fs.Arm(0, "SetNode")
 			}
+			_, err := VerifConnect(p, conns[c], verifapi.NodeID(1+h), true, "")
+			faulted := fs.Failed != ""
+			fs.Disarm()
 			opened[c] = true
-			latest[h] = c
+			if err != nil {
+				if !faulted {
+					verifapi.Unreachable("c09.host-connect-error")
+					return
+				}
+				if latest[h] != c {
+					unsure[h] = true
+				}
+			} else {
+				verifapi.Assert(!faulted, "c09.unrecordable-registration-refused")
+				latest[h], unsure[h] = c, false
+			}
 		case k < nh*nc+nc: // connection c closes (server calls the disconnect callback)
 			c := k - nh*nc
 			if !live[c] {
@@ -57,6 +79,10 @@ func VerifC09History() {
 		nLive := 0
 		ambiguous := false
 		for h := 0; h < nh; h++ {
+			if unsure[h] {
+				ambiguous = true
+				continue
+			}
 			id := store.NodeID(verifapi.NodeID(1 + h))
 			reg, ok := p.remoteHosts[id]
 			can := latest[h] >= 0 && live[latest[h]]
@@ -86,6 +112,11 @@ func VerifC09History() {
 	req := PeerRequest{Num: nh}
 	nonce := VerifFreshNonce()
 	p.Peer(context.Background(), sigs.SignFor(client, "vipnode_peer", nonce, req), client, nonce, req)
+	for h := 0; h < nh; h++ {
+		if unsure[h] {
+			return
+		}
+	}
 	for c := 0; c < nc; c++ {
 		n := len(conns[c].Calls)
 		expect := 0
